@@ -2137,5 +2137,43 @@ def stored_default_alias_oracle(ctx):
     _run(ctx, "stored_default_alias", len(cases), len(cases), lambda rng: next(it), stored_default_alias_check)
 
 
+def recycled_document_check(sc):
+    """a held path object used on a long series of short-lived documents (each dropped before the next is built —
+    CPython hands the freed address to the next one): every answer is what a freshly built path gives"""
+    from treepath import has
+    key = sc["key"]
+    held = [path[key], path.wc[key], path[has(path[key])][key], path.rec[key]]
+    for i in range(sc["n"]):
+        d = {"other": i} if i % 2 == 0 else {key: i}
+        if sc["nest"]:
+            d = {"w": d}
+        for e in held:
+            fresh = Builder([]).steps([["k", key]]) if e is held[0] else None
+            got = get(e, d["w"] if sc["nest"] and e is held[0] else d, default="MISSING")
+            want_doc = d["w"] if sc["nest"] else d
+            want = want_doc.get(key, "MISSING")
+            if e is held[2] and sc["nest"]:
+                want = "MISSING"
+            if e is held[1] and not sc["nest"]:
+                want = "MISSING"
+            if e is held[1] and sc["nest"]:
+                want = want_doc.get(key, "MISSING")
+            if got != want:
+                return f"document {i} ({d!r}): a path object used on earlier, now freed, documents answers {got!r}, expected {want!r}", True
+        want_doc = None
+        del d               # nothing refers to the document any more …
+        if i % 3:
+            import gc
+            gc.collect()    # … once the traversal's own reference cycles are collected: the next one is likely built at its address
+    return None, True
+
+
+def recycled_document_oracle(ctx):
+    cases = [{"key": "k", "n": 400, "nest": False}, {"key": "a", "n": 400, "nest": True}]
+    it = iter(cases)
+    _run(ctx, "recycled_document", len(cases), len(cases), lambda rng: next(it), recycled_document_check)
+
+
+CHECKS["recycled_document"] = recycled_document_check
 CHECKS["stored_default_alias"] = stored_default_alias_check
 CHECKS["eq_across_documents"] = eq_across_documents_check
